@@ -47,31 +47,32 @@ func exec(op string) (res string) {
 	return "bad-op"
 }
 
-// the semantic printer of `specdec`: []byte(nil) and []byte{} both denote the empty byte string
+// the semantic printer of `specdec`: []byte(nil) and []byte{} both denote the empty byte string (KF-C02-2), at
+// any depth of the decoded value (Marshal.normDeep on the Lean side)
 func normNilBytes(ans string) string {
 	w := strings.Fields(ans)
 	if len(w) < 2 || w[0] != "ok" {
 		return ans
 	}
-	for _, x := range w[1 : len(w)-1] {
-		if x != "ptr" {
-			return ans
+	out := make([]string, 0, len(w)+4)
+	for _, x := range w {
+		switch x {
+		case "bnil":
+			out = append(out, "b", "-")
+		case "nbnil":
+			out = append(out, "nb", "-")
+		default:
+			out = append(out, x)
 		}
 	}
-	switch w[len(w)-1] {
-	case "bnil":
-		return strings.Join(w[:len(w)-1], " ") + " b -"
-	case "nbnil":
-		return strings.Join(w[:len(w)-1], " ") + " nb -"
-	}
-	return ans
+	return strings.Join(out, " ")
 }
 
 func hexOrNull(b []byte, null bool) string {
 	if null {
 		return "null"
 	}
-	return vh.Hex(b)
+	return valgen.HexC(b)
 }
 
 // ---------- specification-conformant scalar encodings (reference codec) ----------
@@ -273,18 +274,64 @@ func main() {
 	for _, op := range fixedOps {
 		emit(op, "fixed/"+strings.Fields(op)[0])
 	}
-	// sizes at the sign / width boundaries of the 2-byte framing of protocol <= 2 (one element of 32767 / 32768 /
-	// 65535 / 65536 bytes) and the same under protocol 3
-	for _, p := range []int{2, 3} {
-		for _, sz := range []int{32767, 32768, 65535, 65536} {
-			v := &valgen.Val{Tag: "sl", GT: &valgen.GT{Name: "bytes"}, Elems: []*valgen.Val{{Tag: "b", Bytes: r.Bytes(sz)}}}
-			tv := fmt.Sprintf("%d list blob %s", p, v.String())
-			ans := emit("enc "+tv, "enc/big-element")
-			emit("spec "+tv, "spec/big-element")
-			if strings.HasPrefix(ans, "ok ") {
-				emit(fmt.Sprintf("dec %d list blob %s slice bytes", p, ans[3:]), "dec/big-element")
+	// sizes and counts on both sides of every width boundary of both collection framings (valgen.BoundaryCases):
+	// encode direction against the specification encoder (`spec`), decode direction on bytes written by the
+	// independent reference codec against the specification decoder (`specdec`), and model-vs-code (`enc`, `dec`)
+	for _, c := range g.BoundaryCases(tier) {
+		tv := fmt.Sprintf("%d %s %s", c.Proto, c.T.String(), c.V.String())
+		ans := emit("enc "+tv, c.Class+"/enc")
+		cls := emit("cls "+tv, c.Class+"/cls")
+		if cls == "clean" && (strings.HasPrefix(ans, "ok") || ans == "err" || ans == "crash") {
+			emit("spec "+tv, c.Class+"/spec") // incl. "must be an error": 65536 under the 2-byte framing
+		}
+		if strings.HasPrefix(ans, "ok ") && !c.EncodeOnly {
+			emit(fmt.Sprintf("dec %d %s %s %s", c.Proto, c.T.String(), ans[3:], c.GT.String()), c.Class+"/dec")
+		}
+		if c.EncodeOnly {
+			continue
+		}
+		if cv, ok := cvOfVal(int(c.Proto), c.T, c.V); ok {
+			if b, ok := refcodec.EncodeCV(int(c.Proto), node(c.T), cv); ok {
+				emit(fmt.Sprintf("specdec %d %s %s %s", c.Proto, c.T.String(), valgen.HexC(b), c.GT.String()), c.Class+"/specdec")
 			}
 		}
+	}
+	// the round-trip shapes of C02 (tuples / UDTs with null, empty and zero fields) in the encode direction
+	for i := 0; i < n/4; i++ {
+		p, t, _, v := g.RTCase([]int{1, 1, 2, 2, 3}[r.Intn(5)])
+		tv := fmt.Sprintf("%d %s %s", p, t.String(), v.String())
+		cls := valgen.Classify(p, t, v)
+		ans := emit("enc "+tv, "enc-shape/"+sizeClass(t))
+		emit("cls "+tv, "cls/"+cls)
+		if cls == "clean" && (strings.HasPrefix(ans, "ok") || ans == "null" || ans == "crash") {
+			emit("spec "+tv, "spec-shape/"+sizeClass(t)+fmt.Sprintf("/v%d", p))
+		}
+	}
+	// decode direction for composite types: conformant bytes of abstract values (null / EMPTY / zero fields, short
+	// tuples and UDTs, null elements from protocol 3) from the reference codec into documented targets
+	for i := 0; i < n/2; i++ {
+		p := 1 + r.Intn(5)
+		t := g.Ty([]int{1, 1, 1, 2, 2, 3}[r.Intn(6)])
+		if t.IsScalar() || valgen.PtrKeyed(t) {
+			continue
+		}
+		c := &cgen{g: g, proto: p}
+		gt := c.target(t, true)
+		if gt == nil || unmodelledTarget(t, gt) {
+			continue
+		}
+		gt = valgen.NoByteSlices(gt)
+		cv := c.value(t, gt)
+		b, ok := refcodec.EncodeCV(p, node(t), cv)
+		if !ok {
+			continue
+		}
+		op := fmt.Sprintf("%d %s %s %s", p, t.String(), valgen.HexC(b), gt.String())
+		emit("dec "+op, "dec-ref/"+sizeClass(t))
+		if leafExcluded(t, gt, cv) {
+			continue
+		}
+		emit("specdec "+op, "specdec/"+sizeClass(t)+"/"+gt.Name)
 	}
 	for i := 0; i < n; i++ {
 		depth := 0
@@ -312,7 +359,7 @@ func main() {
 		var datas [][]byte
 		nulls := []bool{}
 		if strings.HasPrefix(ans, "ok ") {
-			b, _ := vh.UnHex(ans[3:]) // the canonical bytes (map entries in sorted order): the op lines must not depend on Go's map iteration order
+			b, _ := valgen.UnHexC(ans[3:]) // the canonical bytes (map entries in sorted order): the op lines must not depend on Go's map iteration order
 			datas = append(datas, b)
 			nulls = append(nulls, false)
 			if r.Intn(4) == 0 && (t.IsScalar() || t.Name == "list" || t.Name == "set" || t.Name == "map") {
@@ -345,7 +392,7 @@ func main() {
 			av := genAV(g, t.Name)
 			if b, ok := refcodec.Encode(t.Name, av); ok {
 				gt := g.Target(t, 0)
-				op := fmt.Sprintf("%d %s %s %s", p, t.String(), vh.Hex(b), gt.String())
+				op := fmt.Sprintf("%d %s %s %s", p, t.String(), valgen.HexC(b), gt.String())
 				if unmodelledTarget(t, gt) {
 					continue
 				}
